@@ -37,8 +37,8 @@ type CaseSpec struct {
 	ExtIn       int             `json:"ext_in,omitempty"`
 	ExtOut      int             `json:"ext_out,omitempty"`
 	Bonds       [][2]string     `json:"bonds,omitempty"`
-	SOs         []string        `json:"sos,omitempty"`     // constructor strings given to Add_shared_objects
-	SOLit       []string        `json:"so_lit,omitempty"`  // shared objects built as struct literals
+	SOs         []string        `json:"sos,omitempty"`      // constructor strings given to Add_shared_objects
+	SOLit       []string        `json:"so_lit,omitempty"`   // shared objects built as struct literals
 	SOLinks     [][2]int        `json:"so_links,omitempty"` // processor, shared object
 	LQ          map[int]float64 `json:"lq_ranges,omitempty"`
 	Child       string          `json:"child,omitempty"` // "" in-process | "fresh" | "fresh-noranges"
@@ -286,10 +286,10 @@ var soParams = []string{"", "0", "1", "8", "255", "256", "300", "-1", "x", "1:2"
 
 type dynFamily struct {
 	NoRender bool // generator cannot run in this environment
-	Family string
-	Sets   [][]string // one list of opcode names per parameter choice
-	Rsize  []uint8
-	LQ     map[int]float64
+	Family   string
+	Sets     [][]string // one list of opcode names per parameter choice
+	Rsize    []uint8
+	LQ       map[int]float64
 }
 
 func dynFamilies() []dynFamily {
